@@ -704,14 +704,18 @@ theorem ext_update_safe (te : TEnv) (self : T.Ext) (m : Msg) (L : Long m) : T.Ex
 theorem ext_from_message_safe (te : TEnv) (m : Msg) (L : Long m) : T.Ext.from_message.safe te m :=
   ⟨trivial, ext_update_safe te _ m L⟩
 
+/-- peel the state-threading prefix (`let`s, matches on the threaded state, path conditions) off an obligation and
+    discharge what is left - the safety of one call on the frame, which does not depend on the state -/
+macro "peel" L:term:max : tactic =>
+  `(tactic| (repeat' (first | intro _ | split)
+             all_goals (first
+               | msg_safe $L | exact is_bds_1_7_safe _ $L | exact is_bds_4_0_safe _ $L | exact is_bds_5_0_safe _ $L
+               | exact is_bds_6_0_safe _ $L | exact is_bds_4_4_safe _ $L | exact is_bds_4_5_safe _ $L
+               | exact altitude_safe _ _ (fun _ => $L) | exact squawk_safe _)))
+
 theorem mds_update_safe (self : T.Mds) (m : Msg) (L : Long m) : T.Mds.update.safe self m := by
   unfold T.Mds.update.safe
-  refine ⟨?_, ?_, ?_, ?_, ?_, ?_, ?_, ?_, ?_⟩
-  · split
-    · intros; exact altitude_safe m _ (fun _ => L)
-    · trivial
-  all_goals (intros; first | msg_safe L | exact is_bds_1_7_safe m L | exact is_bds_4_0_safe m L | exact is_bds_5_0_safe m L
-                            | exact is_bds_6_0_safe m L | exact is_bds_4_4_safe m L | exact is_bds_4_5_safe m L)
+  refine ⟨?_, ?_, ?_, ?_, ?_, ?_, ?_, ?_, ?_⟩ <;> peel L
 
 theorem mds_from_message_safe (m : Msg) (L : Long m) : T.Mds.from_message.safe m :=
   ⟨trivial, mds_update_safe _ m L⟩
@@ -737,5 +741,340 @@ theorem df_from_message_safe (te : TEnv) (m : Msg) (A : Accepted m) : T.DF.from_
   · rename_i v hv; intro h; exact ext_from_message_safe te m (A.long hv (by omega))
   · rename_i v hv; intro h; exact mds_from_message_safe m (A.long hv (by omega))
   · intro _; trivial
+
+
+/-! ### rows: the -U path (`Plane::update`), for rows whose barometric altitude is one the decoder can produce -/
+
+/-- the only row field that enters trapping arithmetic: `altitude as i32 + altitude_delta` -/
+def AltOK (p : T.Plane) : Prop := ∀ a, p.altitude = some a → a < 100000
+
+theorem altitude_lt (m : Msg) (df a : Nat) (h : T.altitude m df = some a) : a < 100000 := by
+  unfold T.altitude at h
+  simp only [Option.bind] at h
+  split at h
+  · cases h
+  · simp only at h
+    split at h
+    · injection h with h; omega
+    · cases h
+
+theorem altitude_delta_bound (m : Msg) (L : Long m) (d : Int) (h : T.altitude_delta m = some d) : -3200 ≤ d ∧ d ≤ 3200 := by
+  unfold T.altitude_delta at h
+  obtain ⟨f_, v_, hv_, hf_, hb_⟩ := frv m L 81 82 88 (by decide) (by decide) (by decide) (by decide) (by decide)
+  simp only [Nat.reducePow, Nat.reduceAdd, Nat.reduceSub] at hb_
+  rw [hv_] at h
+  rcases opt_filter_cases (fun f => f.2 != 0) (f_, v_) with hc | hc <;> rw [hc] at h
+  · simp only [Option.map_some, Option.some.injEq] at h
+    subst h
+    unfold T.delta
+    obtain ⟨e, h0, _⟩ := i32_of_small v_ (by omega)
+    have h' : (v_ : Int) < 128 := by exact_mod_cast hb_
+    rw [e]; split <;> omega
+  · cases h
+
+theorem gnss_add_ok (a : Nat) (d : Int) (ha : a < 100000) (hd : -3200 ≤ d ∧ d ≤ 3200) :
+    -(2:Int)^31 ≤ (u32ToI32 a) + d ∧ (u32ToI32 a) + d < (2:Int)^31 := by
+  obtain ⟨e, h0, _⟩ := i32_of_small a (by omega)
+  have h' : (a : Int) < 100000 := by exact_mod_cast ha
+  rw [e]; omega
+
+theorem update_from_ext_19_safe (te : TEnv) (self : T.Plane) (m : Msg) (L : Long m) (st : Nat) (hA : AltOK self) :
+    T.Plane.update_from_ext_19.safe te self m st := by
+  unfold T.Plane.update_from_ext_19.safe
+  refine ⟨vertical_rate_safe m L, ?_, ?_, ?_⟩
+  · simp only []; split <;> first | exact altitude_delta_safe m L | trivial
+  · simp only []
+    split
+    · rename_i a ha
+      split
+      · rename_i d hd
+        exact gnss_add_ok a d (hA a ha) (altitude_delta_bound m L d hd)
+      · trivial
+    · trivial
+  · peel L
+
+theorem update_cpr_safe (te : TEnv) (self : T.Plane) (m : Msg) (L : Long m) (mt : Nat) : T.Plane.update_cpr.safe te self m mt := by
+  unfold T.Plane.update_cpr.safe
+  refine ⟨cpr_safe m L, ?_⟩
+  split
+  · rename_i f la lo heq
+    rw [Option.filter_eq_some_iff] at heq
+    have : f ≤ 1 := by simpa using heq.2
+    refine ⟨?_, ?_, ?_, ?_, ?_⟩ <;> first | omega | (intros; trivial) | trivial
+  · trivial
+
+
+theorem update_from_ext_5_8_safe (te : TEnv) (self : T.Plane) (m : Msg) (L : Long m) (mt : Nat) : T.Plane.update_from_ext_5_8.safe te self m mt := by
+  unfold T.Plane.update_from_ext_5_8.safe
+  exact ⟨ground_movement_safe m L, ground_track_safe m L, update_cpr_safe te _ m L mt⟩
+
+theorem update_from_ext_9_18_safe (te : TEnv) (self : T.Plane) (m : Msg) (L : Long m) (mt df : Nat) : T.Plane.update_from_ext_9_18.safe te self m mt df := by
+  unfold T.Plane.update_from_ext_9_18.safe
+  exact ⟨altitude_safe m df (fun _ => L), surveillance_status_safe m L, update_cpr_safe te _ m L mt⟩
+
+theorem update_from_ext_safe (te : TEnv) (self : T.Plane) (m : Msg) (L : Long m) (df : Nat) (hA : AltOK self) :
+    T.Plane.update_from_ext.safe te self m df := by
+  unfold T.Plane.update_from_ext.safe
+  refine ⟨get_message_type_safe m L, ?_, ?_, ?_, ?_, ?_, ?_⟩ <;> (split; intros)
+  · trivial
+  · exact update_from_ext_5_8_safe te _ m L _
+  · exact update_from_ext_9_18_safe te _ m L _ df
+  · exact update_from_ext_19_safe te _ m L _ (fun a h => hA a h)
+  · exact ⟨altitude_gnss_safe m L, surveillance_status_safe m L⟩
+  · exact version_safe m L
+
+theorem update_from_bcast_safe (self : T.Plane) (m : Msg) (df : Nat) (h2 : 2 ≤ m.length) (hL : df = 17 → Long m) :
+    T.Plane.update_from_bcast.safe self m df := by
+  unfold T.Plane.update_from_bcast.safe
+  refine ⟨fun _ => altitude_safe m df hL, ?_, ?_⟩
+  · intros; exact squawk_safe m
+  · intros; exact get_capability_safe m h2
+
+/-- `update_from_bcast` leaves a decoder-made altitude in the row -/
+theorem update_from_bcast_altOK (self : T.Plane) (m : Msg) (df : Nat) (hA : AltOK self) : AltOK (T.Plane.update_from_bcast self m df) := by
+  unfold T.Plane.update_from_bcast AltOK
+  simp only []
+  intro a
+  repeat' split
+  all_goals (intro h; first | exact hA a h | exact altitude_lt m df a h | (simp at h))
+
+theorem update_from_mode_s_safe (self : T.Plane) (m : Msg) (L : Long m) (df : Nat) (r : Bool) : T.Plane.update_from_mode_s.safe self m df r := by
+  unfold T.Plane.update_from_mode_s.safe
+  refine ⟨bds_safe m L, ?_, ?_, ?_, ?_, ?_, ?_, ?_⟩ <;> peel L
+
+
+theorem update_safe (now : Int) (te : TEnv) (self : T.Plane) (m : Msg) (df : Nat) (r : Bool) (hA : AltOK self) (h2 : 2 ≤ m.length)
+    (hL : (df = 17 ∨ df = 18 ∨ df = 20 ∨ df = 21) → Long m) : T.Plane.update.safe now te self m df r := by
+  unfold T.Plane.update.safe
+  refine ⟨update_from_bcast_safe _ m df h2 (fun h => hL (by omega)), ?_, ?_⟩
+  · simp only []
+    intro h
+    exact update_from_ext_safe te _ m (hL (by omega)) df (update_from_bcast_altOK _ m df (fun a ha => hA a ha))
+  · simp only []
+    intro h
+    exact update_from_mode_s_safe _ m (hL (by omega)) df r
+
+theorem new_altOK (now : Int) : AltOK (T.Plane.new now) := by
+  intro a h; simp [T.Plane.new] at h
+
+
+/-! ### rows: the default path (records built by `DF::from_message`, applied by `update_from_downlink`) -/
+
+/-- what the default path reads from an extended-squitter record and feeds into trapping operations -/
+def ExtOK (d : T.Ext) : Prop :=
+  (∀ f la lo, d.cpr = some (f, la, lo) → f < 2) ∧ (∀ a, d.altitude = some a → a < 100000) ∧
+  (∀ x, d.altitude_delta = some x → -3200 ≤ x ∧ x ≤ 3200)
+
+theorem cpr_flag_lt (m : Msg) (L : Long m) (f la lo : Nat) (h : T.cpr m = some (f, la, lo)) : f < 2 := by
+  unfold T.cpr at h
+  obtain ⟨f_, v_, hv_, hf_, hb_⟩ := frv m L 54 55 71 (by decide) (by decide) (by decide) (by decide) (by decide)
+  rw [hv_] at h
+  simp only [Option.map_eq_some_iff] at h
+  obtain ⟨lon, _, he⟩ := h
+  injection he with e1; subst e1; exact hf_
+
+theorem ext_new_ok : ExtOK T.Ext.new := by
+  refine ⟨?_, ?_, ?_⟩ <;> (intros; simp [T.Ext.new] at *)
+
+theorem ext_update_ok (te : TEnv) (m : Msg) (L : Long m) : ExtOK (T.Ext.update te T.Ext.new m) := by
+  have hc := cpr_flag_lt m L
+  have ha := fun df => altitude_lt m df
+  have hd := altitude_delta_bound m L
+  unfold T.Ext.update T.Ext.update_mt_1_4 T.Ext.update_mt_5_18 T.Ext.update_mt_19 T.Ext.update_mt_20_22 T.Ext.update_mt_31
+  simp only []
+  repeat' split
+  all_goals (refine ⟨?_, ?_, ?_⟩ <;> (intros; first | (apply hc; assumption) | (apply ha; assumption) | (apply hd; assumption) | (simp [T.Ext.new] at *)))
+
+theorem ext_from_message_ok (te : TEnv) (m : Msg) (L : Long m) (d : T.Ext) (h : T.Ext.from_message te m = some d) : ExtOK d := by
+  unfold T.Ext.from_message at h
+  injection h with h; subst h
+  exact ext_update_ok te m L
+
+
+theorem amend_from_ext_19_safe (self : T.Plane) (d : T.Ext) (hA : AltOK self) (hE : ExtOK d) : T.Plane.amend_from_ext_19.safe self d := by
+  unfold T.Plane.amend_from_ext_19.safe
+  simp only []
+  split
+  · rename_i x hx
+    split
+    · rename_i a ha
+      exact gnss_add_ok a x (hA a ha) (hE.2.2 x hx)
+    · trivial
+  · trivial
+
+theorem amend_cpr_safe (te : TEnv) (self : T.Plane) (d : T.Ext) (hE : ExtOK d) : T.Plane.amend_cpr.safe te self d := by
+  unfold T.Plane.amend_cpr.safe
+  refine ⟨?_, ?_, ?_, ?_, ?_⟩ <;> (split <;> first | trivial | skip)
+  all_goals (rename_i f la lo hq; intros; first | exact hE.1 f la lo hq | trivial)
+
+theorem amend_from_ext_5_8_safe (te : TEnv) (self : T.Plane) (d : T.Ext) (hE : ExtOK d) : T.Plane.amend_from_ext_5_8.safe te self d :=
+  amend_cpr_safe te _ d hE
+
+theorem amend_from_ext_9_18_safe (te : TEnv) (self : T.Plane) (d : T.Ext) (hE : ExtOK d) : T.Plane.amend_from_ext_9_18.safe te self d :=
+  amend_cpr_safe te _ d hE
+
+theorem update_from_downlink_Ext_safe (te : TEnv) (self : T.Plane) (d : T.Ext) (hA : AltOK self) (hE : ExtOK d) :
+    T.Plane.update_from_downlink_Ext.safe te self d := by
+  unfold T.Plane.update_from_downlink_Ext.safe
+  refine ⟨?_, ?_, ?_, ?_, ?_, ?_⟩ <;>
+    (intros; first
+      | trivial
+      | exact amend_from_ext_5_8_safe te _ d hE
+      | exact amend_from_ext_9_18_safe te _ d hE
+      | exact amend_from_ext_19_safe _ d (fun a h => hA a h) hE)
+
+/-- a record as `DF::from_message` builds it -/
+def DfOK : T.DF → Prop
+  | .EXT v => ExtOK v
+  | _ => True
+
+theorem update_from_downlink_DF_safe (now : Int) (te : TEnv) (self : T.Plane) (d : T.DF) (hA : AltOK self) (hD : DfOK d) :
+    T.Plane.update_from_downlink_DF.safe now te self d := by
+  unfold T.Plane.update_from_downlink_DF.safe
+  refine ⟨?_, ?_, ?_⟩ <;> (simp only []; split <;> first | trivial | skip)
+  rename_i v
+  exact update_from_downlink_Ext_safe te _ v (fun a h => hA a h) hD
+
+
+/-! ### the table and the loop body -/
+
+theorem from_downlink_safe (now : Int) (te : TEnv) (d : T.DF) (icao : Nat) (hD : DfOK d) : T.Plane.from_downlink.safe now te d icao := by
+  unfold T.Plane.from_downlink.safe
+  refine ⟨trivial, ?_⟩
+  simp only []
+  exact update_from_downlink_DF_safe now te _ d (fun a h => by simp [T.Plane.new] at h) hD
+
+theorem from_message_safe (now : Int) (te : TEnv) (m : Msg) (df icao : Nat) (r : Bool) (h2 : 2 ≤ m.length)
+    (hL : (df = 17 ∨ df = 18 ∨ df = 20 ∨ df = 21) → Long m) : T.Plane.from_message.safe now te m df icao r := by
+  unfold T.Plane.from_message.safe
+  refine ⟨trivial, ?_⟩
+  simp only []
+  exact update_safe now te _ m df r (fun a h => by simp [T.Plane.new] at h) h2 hL
+
+/-- every row of the table has an altitude the decoder can have produced -/
+def TableOK (t : T.Planes) : Prop := ∀ kv ∈ t.aircrafts, AltOK kv.2
+
+theorem update_aircraft_safe (now : Int) (te : TEnv) (t : T.Planes) (d : T.DF) (m : Msg) (df icao : Nat) (a : T.Args)
+    (hT : TableOK t) (hD : DfOK d) (h2 : 2 ≤ m.length) (hL : (df = 17 ∨ df = 18 ∨ df = 20 ∨ df = 21) → Long m) :
+    T.Planes.update_aircraft.safe now te t d m df icao a := by
+  unfold T.Planes.update_aircraft.safe
+  refine ⟨?_, ?_, from_downlink_safe now te d icao hD⟩
+  · intro _ kv hkv _ _
+    exact update_from_downlink_DF_safe now te _ d (hT kv hkv) hD
+  · intro _ kv hkv _ _
+    exact update_safe now te _ m df a.relaxed (hT kv hkv) h2 hL
+
+/-- the counters: no DF has been counted 2^31 - 1 times yet, and the sweep counter is where the sweep leaves it -/
+def CountOK (c : T.AppCounters) : Prop :=
+  (∀ kc ∈ c.df_count, -(2:Int)^31 ≤ kc.2 + 1 ∧ kc.2 + 1 < (2:Int)^31) ∧ c.cleanup_count ≤ 11
+
+theorem update_count_safe (c : T.AppCounters) (df : Nat) (h : CountOK c) : T.AppCounters.update_count.safe c df := by
+  unfold T.AppCounters.update_count.safe
+  intro kc hkc; exact h.1 kc hkc
+
+theorem cleanup_safe (t : T.Planes) (c : T.AppCounters) (now da : Int) (h : c.cleanup_count ≤ 11) : T.Planes.cleanup.safe t c now da := by
+  unfold T.Planes.cleanup.safe
+  refine ⟨fun _ => trivial, ?_⟩
+  simp only []
+  split
+  · rename_i hc
+    unfold T.AppCounters.increment_cleanup_count.safe T.AppCounters.reset_cleanup_count
+    simp only []; omega
+  · unfold T.AppCounters.increment_cleanup_count.safe
+    simp only []; omega
+
+
+theorem charDigits_allNib (cs : List Char) : AllNib (cs.filterMap charToDigit16) := by
+  intro x hx
+  simp only [List.mem_filterMap] at hx
+  obtain ⟨c, _, hc⟩ := hx
+  unfold charToDigit16 at hc
+  simp only [] at hc
+  repeat' split at hc
+  all_goals first | (injection hc with hc; omega) | cases hc
+
+/-- what `get_message` lets through is an accepted frame -/
+theorem get_message_accepted (cs : List Char) (m : Msg) (h : T.get_message cs = some m) : Accepted m := by
+  rw [get_message_eq] at h
+  unfold messageOfDigits at h
+  rw [Option.filter_eq_some_iff] at h
+  obtain ⟨h, _⟩ := h
+  rw [Option.filter_eq_some_iff] at h
+  obtain ⟨h, _⟩ := h
+  rw [Option.filter_eq_some_iff] at h
+  obtain ⟨h, hfit⟩ := h
+  rw [Option.filter_eq_some_iff] at h
+  obtain ⟨hc, hlen⟩ := h
+  refine ⟨cleanDigits_allNib (charDigits_allNib cs) hc, ?_⟩
+  unfold lengthMatchesDF at hfit
+  cases hdf : getDownlinkFormat m with
+  | none => rw [hdf] at hfit; cases hfit
+  | some df =>
+    rw [hdf] at hfit
+    refine ⟨df, rfl, ?_⟩
+    by_cases h15 : df ≤ 15
+    · left; exact ⟨h15, by simpa [h15] using hfit⟩
+    · right; exact ⟨by omega, by simpa [h15] using hfit⟩
+
+theorem df_from_message_ok (te : TEnv) (m : Msg) (A : Accepted m) (d : T.DF) (h : T.DF.from_message te m = some d) : DfOK d := by
+  unfold T.DF.from_message at h
+  cases hdf : getDownlinkFormat m with
+  | none => rw [hdf] at h; cases h
+  | some v =>
+    rw [hdf] at h
+    simp only [] at h
+    by_cases h16 : 0 ≤ v ∧ v ≤ 16
+    · simp only [h16, and_self, if_true] at h
+      cases hs : T.Srt.from_message m <;> rw [hs] at h <;> simp at h
+      subst h; trivial
+    · by_cases h17 : v = 17
+      · simp only [h16, if_false, h17, if_true] at h
+        have L : Long m := A.long hdf (by omega)
+        cases he : T.Ext.from_message te m with
+        | none => rw [he] at h; simp at h
+        | some x =>
+          rw [he] at h; simp at h
+          subst h
+          exact ext_from_message_ok te m L x he
+      · simp only [h16, if_false, h17] at h
+        split at h
+        · cases h
+        · rename_i dl heq
+          injection h with h; subst h
+          split at heq
+          · split at heq
+            · cases heq
+            · injection heq with heq; subst heq; trivial
+          · injection heq with heq; subst heq; trivial
+
+
+theorem update_count_cleanup (c : T.AppCounters) (df : Nat) : (T.AppCounters.update_count c df).cleanup_count = c.cleanup_count := rfl
+
+/-- **One iteration of the reader loop cannot trap** - for every line (any characters), every option set, every table whose
+    rows carry decoder-made altitudes and counters that have not been incremented 2^31 - 1 times: no unsigned subtraction
+    underflows, no `+`/`*` overflows its integer type, no shift is over-wide, no index is out of range, no `expect` meets
+    `None`, in any function the loop body calls (133 translated functions, 430 obligations regenerated from the source). -/
+theorem read_lines_step_safe (now : Int) (te : TEnv) (line : List Char) (a : T.Args) (t : T.Planes) (c : T.AppCounters)
+    (hT : TableOK t) (hC : CountOK c) : T.read_lines_step.safe now te line a t c := by
+  unfold T.read_lines_step.safe
+  refine ⟨get_message_safe line, ?_, ?_, ?_, ?_⟩
+  all_goals (split <;> first | trivial | skip)
+  all_goals (rename_i m hm; split <;> first | trivial | skip)
+  all_goals (rename_i df hdf; split <;> first | trivial | skip)
+  all_goals (have A := get_message_accepted line m hm; have hl := A.len2)
+  · intro _; exact update_count_safe c df hC
+  · intros; exact df_from_message_safe te m A
+  · intros
+    split
+    · rename_i d hd
+      exact update_aircraft_safe now te t d m df _ a hT (df_from_message_ok te m A d hd) (by omega) (fun h => A.long hdf (by omega))
+    · trivial
+  · simp only []
+    split
+    · apply cleanup_safe
+      split
+      · rw [update_count_cleanup]; exact hC.2
+      · exact hC.2
+    · trivial
 
 end Sq.Safe
